@@ -118,6 +118,12 @@ struct Run {
     receivers: Vec<(u64, tokio::sync::oneshot::Receiver<ListenerResult>)>,
     dirs: Vec<tempfile::TempDir>,
     snapshots: HashMap<u64, Vec<(String, Vec<u8>, Vec<u8>)>>,
+    // the Raft premise for multi-node history-id cases: allocations of the leader, the committed
+    // log, the applied index of every node and of every snapshot
+    last_alloc: Option<(u64, Option<u64>)>,
+    log: Vec<(u64, Option<u64>)>,
+    applied: Vec<usize>,
+    snap_applied: HashMap<u64, usize>,
 }
 
 impl Run {
@@ -130,6 +136,10 @@ impl Run {
             receivers: vec![],
             dirs: vec![],
             snapshots: HashMap::new(),
+            last_alloc: None,
+            log: vec![],
+            applied: vec![0],
+            snap_applied: HashMap::new(),
         }
     }
 
@@ -168,6 +178,7 @@ impl Run {
                     self.nodes.push(Node {
                         addr: ConfigActor::new().start(),
                     });
+                    self.applied.push(0);
                 }
                 self.cur = i;
                 json!("ok")
@@ -180,9 +191,13 @@ impl Run {
                         addr: ConfigActor::new().start(),
                     });
                 }
+                while self.applied.len() < self.nodes.len() {
+                    self.applied.push(0);
+                }
                 self.nodes[i] = Node {
                     addr: ConfigActor::new().start(),
                 };
+                self.applied[i] = 0;
                 json!("ok")
             }
             "add" => {
@@ -543,6 +558,7 @@ impl Run {
                     }
                 }
                 cfg.sort();
+                self.snap_applied.insert(sid, self.applied[self.cur]);
                 self.snapshots.insert(sid, recs);
                 json!({"config_keys": cfg, "seq": seq})
             }
@@ -565,8 +581,64 @@ impl Run {
                         }
                     }
                 }
+                if let Some(a) = self.snap_applied.get(&sid) {
+                    self.applied[self.cur] = *a;
+                }
                 json!("ok")
             }
+            // leader side of a publish: the real next_state of the current node
+            "alloc" => match addr.send(VerifConfigCmd::NextState).await {
+                Ok(Ok(VerifConfigResult::NextState(Some((id, mark))))) => {
+                    self.last_alloc = Some((id, mark));
+                    json!([id, mark])
+                }
+                _ => json!("err"),
+            },
+            // the fate of the raft write carrying the last allocation
+            "settle" => {
+                if let Some((id, mark)) = self.last_alloc.take() {
+                    let lose = match op[1].as_str().unwrap_or("commit") {
+                        "lose" => true,
+                        "lose_inside" => mark.is_none(),
+                        "lose_boundary" => mark.is_some(),
+                        _ => false,
+                    };
+                    if lose {
+                        json!("lost")
+                    } else {
+                        self.log.push((id, mark));
+                        json!("committed")
+                    }
+                } else {
+                    json!("none")
+                }
+            }
+            // the current node applies the next committed entry it has not applied yet
+            "apply_next" | "catch_up" => {
+                let mut n = 0;
+                while self.applied[self.cur] < self.log.len() {
+                    let pos = self.applied[self.cur];
+                    let (hid, mark) = self.log[pos];
+                    let cmd = ConfigRaftCmd::ConfigAdd {
+                        key: s(&op[1]),
+                        value: Arc::new(format!("c{}", pos)),
+                        config_type: None,
+                        desc: None,
+                        history_id: hid,
+                        history_table_id: mark,
+                        op_time: 1000 + pos as i64,
+                        op_user: None,
+                    };
+                    addr.send(cmd).await.ok();
+                    self.applied[self.cur] += 1;
+                    n += 1;
+                    if name == "apply_next" {
+                        break;
+                    }
+                }
+                json!(n)
+            }
+            "log" => json!(self.log),
             // key / validator functions (no actor involved)
             "keyrt" => {
                 let k = key_of(&op[1]);
